@@ -101,6 +101,11 @@ pub struct OrderBook<const LEVELS: usize = 10> {
     tick_size: Price,
     /// Cumulative trade volume
     trade_vol: Vol,
+    /// Earliest queue-time that can be assigned to the
+    /// next order entering a priority queue, strictly
+    /// later than the queue-time of every queued order
+    #[serde(skip_serializing)]
+    next_queue_time: Nanos,
     /// Ask side of the book data structure
     #[serde(skip_serializing)]
     ask_side: AskSide,
@@ -162,6 +167,7 @@ impl<const LEVELS: usize> OrderBook<LEVELS> {
             t: start_time,
             tick_size,
             trade_vol: 0,
+            next_queue_time: 0,
             ask_side: AskSide::new(),
             bid_side: BidSide::new(),
             orders: Vec::new(),
@@ -419,6 +425,20 @@ impl<const LEVELS: usize> OrderBook<LEVELS> {
         Ok(order_id)
     }
 
+    /// Get the queue-time for an order entering a priority queue
+    ///
+    /// This is the current time, unless an order has already
+    /// been queued at this time (i.e. time was not advanced
+    /// between placements), in which case it is the next unused
+    /// time. Queue-times are hence unique and increase in the
+    /// sequence orders are queued, so orders queued at the same
+    /// price and time keep distinct keys and their arrival order.
+    fn queue_time(&mut self) -> Nanos {
+        let queue_time = self.t.max(self.next_queue_time);
+        self.next_queue_time = queue_time + 1;
+        queue_time
+    }
+
     /// Match an aggressive buy order
     ///
     /// # Arguments
@@ -496,7 +516,7 @@ impl<const LEVELS: usize> OrderBook<LEVELS> {
             self.match_bid(order_entry);
         }
         if order_entry.order.status != Status::Filled {
-            let key: OrderKey = (Side::Bid, order_entry.key.1, self.t);
+            let key: OrderKey = (Side::Bid, order_entry.key.1, self.queue_time());
             order_entry.key = key;
             self.bid_side
                 .insert_order(key, order_entry.order.order_id, order_entry.order.vol)
@@ -539,7 +559,7 @@ impl<const LEVELS: usize> OrderBook<LEVELS> {
             self.match_ask(order_entry);
         }
         if order_entry.order.status != Status::Filled {
-            let key: OrderKey = (Side::Ask, order_entry.key.1, self.t);
+            let key: OrderKey = (Side::Ask, order_entry.key.1, self.queue_time());
             order_entry.key = key;
             self.ask_side
                 .insert_order(key, order_entry.order.order_id, order_entry.order.vol)
@@ -698,7 +718,7 @@ impl<const LEVELS: usize> OrderBook<LEVELS> {
         if order_entry.order.status != Status::Filled {
             match order_entry.key.0 {
                 crate::types::Side::Bid => {
-                    let key: OrderKey = get_bid_key(self.t, new_price);
+                    let key: OrderKey = get_bid_key(self.queue_time(), new_price);
                     order_entry.key = key;
 
                     self.bid_side.insert_order(
@@ -708,7 +728,7 @@ impl<const LEVELS: usize> OrderBook<LEVELS> {
                     );
                 }
                 crate::types::Side::Ask => {
-                    let key: OrderKey = get_ask_key(self.t, new_price);
+                    let key: OrderKey = get_ask_key(self.queue_time(), new_price);
                     order_entry.key = key;
 
                     self.ask_side.insert_order(
@@ -903,8 +923,12 @@ impl<const LEVELS: usize> std::convert::TryFrom<OrderBookState<LEVELS>> for Orde
     fn try_from(state: OrderBookState<LEVELS>) -> Result<Self, Self::Error> {
         let mut bid_side = BidSide::default();
         let mut ask_side = AskSide::default();
+        let mut next_queue_time = 0;
 
         for OrderEntry { order, key } in state.orders.iter() {
+            if order.status != Status::New {
+                next_queue_time = next_queue_time.max(key.2.saturating_add(1));
+            }
             if order.status == Status::Active {
                 match order.side {
                     Side::Bid => bid_side.insert_order(*key, order.order_id, order.vol),
@@ -917,6 +941,7 @@ impl<const LEVELS: usize> std::convert::TryFrom<OrderBookState<LEVELS>> for Orde
             t: state.t,
             tick_size: state.tick_size,
             trade_vol: state.trade_vol,
+            next_queue_time,
             ask_side,
             bid_side,
             orders: state.orders,
